@@ -162,7 +162,7 @@ func (env *Env) load(loc string, t types.Type) Val {
 		}
 		var fs []string
 		for i := 0; i < u.NumFields(); i++ {
-			fs = append(fs, env.load(fmt.Sprintf("(lfield %s %d)", loc, i), u.Field(i).Type()).S)
+			fs = append(fs, env.load(c.lfield(loc, u, i), u.Field(i).Type()).S)
 		}
 		return Val{T: t, S: fmt.Sprintf("(mk_%s %s)", sn, strings.Join(fs, " "))}
 	case *types.Array:
@@ -232,13 +232,13 @@ func (env *Env) addr(x Expr) (loc string, t types.Type, ok bool) {
 				if i < 0 {
 					fail("no field %s in %s", x.Name, pt.Elem())
 				}
-				return fmt.Sprintf("(lfield %s %d)", pv.S, i), st.Field(i).Type(), true
+				return env.c.lfield(pv.S, st, i), st.Field(i).Type(), true
 			}
 			i, st := fieldIndex(bt, x.Name)
 			if i < 0 {
 				fail("no field %s in %s", x.Name, bt)
 			}
-			return fmt.Sprintf("(lfield %s %d)", bl, i), st.Field(i).Type(), true
+			return env.c.lfield(bl, st, i), st.Field(i).Type(), true
 		}
 		v := env.elab(x.X)
 		if pt, isp := v.T.Underlying().(*types.Pointer); isp {
@@ -246,7 +246,7 @@ func (env *Env) addr(x Expr) (loc string, t types.Type, ok bool) {
 			if i < 0 {
 				fail("no field %s in %s", x.Name, pt.Elem())
 			}
-			return fmt.Sprintf("(lfield %s %d)", v.S, i), st.Field(i).Type(), true
+			return env.c.lfield(v.S, st, i), st.Field(i).Type(), true
 		}
 		return "", nil, false
 	case *EIndex:
